@@ -1,7 +1,9 @@
 package checks
 
 import (
+	"fmt"
 	"go/token"
+	"go/types"
 
 	"fv/internal/core"
 
@@ -9,9 +11,9 @@ import (
 )
 
 // checkChunks (fmt.chunks): chunking may only insert breaks, never drop a chunk.
-//   - every chunk dequeued by nextChunk() in the emitters has its buffer read (or is handed to an emitter)
-//     on its non-nil path; one named exception (combineInfixChunk advances over chunks it has already
-//     copied through peekChunk);
+//   - conservation: every chunk dequeued by nextChunk(), and every *Chunk parameter of a function returning text, has on
+//     every path (from the point it is known non-nil to the next dequeue / return) its buffer used as text, or is
+//     handed to an emitter, or was compared equal to a constant (which is then written in its place);
 //   - (*ChunkBuffer).String writes chunks[i].buffer for every i: the write is controlled by nothing but the loop.
 func checkChunks(c *core.Ctx) {
 	prog := c.Prog
@@ -21,67 +23,207 @@ func checkChunks(c *core.Ctx) {
 		c.MissingAnchor("fmt.chunks", "formatter.(*ChunkBuffer).nextChunk / String")
 		return
 	}
-	readsBuffer := func(v ssa.Value) bool {
-		if v.Referrers() == nil {
+	// emitters: functions of the package that take a *Chunk and return text
+	isChunkPtr := func(t types.Type) bool {
+		p, ok := t.(*types.Pointer)
+		return ok && core.NamedTypeName(p.Elem()) == "Chunk"
+	}
+	isEmitter := func(fn *ssa.Function) bool {
+		if fn == nil || fn.Pkg != next.Pkg || fn.Signature.Results().Len() == 0 {
 			return false
 		}
-		for _, r := range *v.Referrers() {
-			switch t := r.(type) {
-			case *ssa.FieldAddr:
-				if f := core.FieldOf(t); f != nil && f.Name() == "buffer" && hasRealUse(t) {
-					return true
-				}
-			case ssa.CallInstruction:
-				if cal := t.Common().StaticCallee(); cal != nil && cal.Pkg == next.Pkg {
-					for _, a := range t.Common().Args[1:] {
-						if a == v {
-							return true
+		b, ok := fn.Signature.Results().At(0).Type().Underlying().(*types.Basic)
+		return ok && b.Kind() == types.String
+	}
+	// conserved: on every path from the point where chunk value v is known to be non-nil to the function's exit or back
+	// to v's definition, v's buffer is used as text (concatenated, passed to a call), v is handed to an emitter, or the
+	// path takes the true edge of `v.buffer == "<const>"` (the constant is written in its place).
+	conserved := func(fn *ssa.Function, v ssa.Value, defBlock *ssa.BasicBlock, defIdx int) (bool, string) {
+		discharging := map[ssa.Instruction]bool{}
+		dischargingBlocks := map[*ssa.BasicBlock]bool{}
+		blockEnd := map[*ssa.BasicBlock]bool{}
+		var nonNil []*ssa.BasicBlock
+		if v.Referrers() != nil {
+			for _, r := range *v.Referrers() {
+				switch t := r.(type) {
+				case *ssa.BinOp:
+					if (t.Op == token.EQL || t.Op == token.NEQ) && (core.IsNilConst(t.X) || core.IsNilConst(t.Y)) && t.Referrers() != nil {
+						for _, rr := range *t.Referrers() {
+							if iff, ok := rr.(*ssa.If); ok {
+								if t.Op == token.EQL {
+									nonNil = append(nonNil, iff.Block().Succs[1])
+								} else {
+									nonNil = append(nonNil, iff.Block().Succs[0])
+								}
+							}
+						}
+					}
+				case *ssa.FieldAddr:
+					if f := core.FieldOf(t); f == nil || f.Name() != "buffer" || t.Referrers() == nil {
+						continue
+					}
+					for _, ld := range *t.Referrers() {
+						lv, ok := ld.(*ssa.UnOp)
+						if !ok || lv.Referrers() == nil {
+							continue
+						}
+						for _, u := range *lv.Referrers() {
+							switch ut := u.(type) {
+							case *ssa.BinOp:
+								switch ut.Op {
+								case token.ADD:
+									if hasRealUse(ut) {
+										discharging[ut] = true
+									}
+								case token.EQL:
+									_, kx := ut.X.(*ssa.Const)
+									_, ky := ut.Y.(*ssa.Const)
+									if (kx || ky) && ut.Referrers() != nil {
+										for _, rr := range *ut.Referrers() {
+											if iff, ok := rr.(*ssa.If); ok && len(iff.Block().Succs[0].Preds) == 1 {
+												dischargingBlocks[iff.Block().Succs[0]] = true
+											}
+										}
+									}
+								}
+							case ssa.CallInstruction:
+								discharging[u] = true
+							case *ssa.Store, *ssa.Return, *ssa.MakeInterface:
+								discharging[u] = true
+							case *ssa.Phi:
+								// the text becomes the value of a variable on the edge from the corresponding predecessor
+								if hasRealUse(ut) {
+									for i, e := range ut.Edges {
+										if e == lv {
+											blockEnd[ut.Block().Preds[i]] = true
+										}
+									}
+								}
+							}
+						}
+					}
+				case ssa.CallInstruction:
+					if isEmitter(t.Common().StaticCallee()) {
+						for _, a := range t.Common().Args {
+							if a == v {
+								discharging[t] = true
+							}
 						}
 					}
 				}
 			}
 		}
-		return false
+		blockDischarges := func(b *ssa.BasicBlock, from int) bool {
+			if (dischargingBlocks[b] && from == 0) || blockEnd[b] {
+				return true
+			}
+			for _, in := range b.Instrs[from:] {
+				if discharging[in] {
+					return true
+				}
+			}
+			return false
+		}
+		var bad string
+		seen := map[*ssa.BasicBlock]bool{}
+		var walk func(b *ssa.BasicBlock, from int)
+		walk = func(b *ssa.BasicBlock, from int) {
+			if bad != "" || blockDischarges(b, from) {
+				return
+			}
+			if _, isRet := b.Instrs[len(b.Instrs)-1].(*ssa.Return); isRet {
+				bad = "the return at " + prog.Loc(b.Instrs[len(b.Instrs)-1].Pos())
+				return
+			}
+			for _, s := range b.Succs {
+				if s == defBlock && defBlock != nil {
+					if _, isParam := v.(*ssa.Parameter); !isParam {
+						bad = "the next dequeue (loop back from " + prog.Loc(b.Instrs[len(b.Instrs)-1].Pos()) + ")"
+						return
+					}
+				}
+				if !seen[s] {
+					seen[s] = true
+					walk(s, 0)
+				}
+			}
+		}
+		if len(nonNil) > 0 {
+			for _, s := range nonNil {
+				seen[s] = true
+				walk(s, 0)
+			}
+		} else if defBlock != nil {
+			walk(defBlock, defIdx+1)
+		} else {
+			walk(fn.Blocks[0], 0)
+		}
+		return bad == "", bad
 	}
-	for _, fn := range prog.ModuleFuncs("formatter") {
+	// peeksAndCopies: the function looks ahead with peekChunk and every peeked chunk's buffer is read as text
+	peek := prog.SSAFunc("formatter", "ChunkBuffer.peekChunk")
+	peeksAndCopies := func(fn *ssa.Function) bool {
+		n := 0
 		for _, b := range fn.Blocks {
 			for _, in := range b.Instrs {
+				call, ok := in.(*ssa.Call)
+				if !ok || peek == nil || call.Common().StaticCallee() != peek {
+					continue
+				}
+				copied := false
+				for _, u := range valueUsesThroughPhi(call) {
+					if fa, isFA := u.(*ssa.FieldAddr); isFA && core.FieldOf(fa) != nil && core.FieldOf(fa).Name() == "buffer" {
+						copied = true
+					}
+				}
+				if !copied {
+					return false
+				}
+				n++
+			}
+		}
+		return n > 0
+	}
+	for _, fn := range prog.ModuleFuncs("formatter") {
+		if len(fn.Blocks) == 0 {
+			continue
+		}
+		// *Chunk parameters of emitters
+		if isEmitter(fn) {
+			for _, par := range fn.Params[1:] {
+				if !isChunkPtr(par.Type()) {
+					continue
+				}
+				key := core.FnName(fn) + "|param " + par.Name()
+				if ok, why := conserved(fn, par, nil, 0); ok {
+					c.Discharge("fmt.chunks", key, fn.Pos(), "on every path the chunk's text is written, the chunk is handed to another emitter, or it was compared equal to the constant written in its place")
+				} else {
+					c.Report("fmt.chunks", key, fn.Pos(), core.FnName(fn)+" receives a chunk of the expression and there is a path to "+why+" on which its text is neither written nor handed on: that piece of the expression disappears from the formatted output")
+				}
+			}
+		}
+		n := 0
+		for _, b := range fn.Blocks {
+			for idx, in := range b.Instrs {
 				call, ok := in.(*ssa.Call)
 				if !ok || call.Common().StaticCallee() != next {
 					continue
 				}
 				c.CallSite()
-				key := core.FnName(fn) + "|nextChunk"
-				if fn.Name() == "combineInfixChunk" {
-					c.Discharge("fmt.chunks", key+"|advance", in.Pos(), "named exception: advances over chunks whose buffers were already copied through peekChunk in the same activation")
+				n++
+				key := fmt.Sprintf("%s|nextChunk#%d", core.FnName(fn), n)
+				if (call.Referrers() == nil || len(*call.Referrers()) == 0) && peeksAndCopies(fn) {
+					c.Discharge("fmt.chunks", key, in.Pos(), "advance over chunks whose buffers the same function copied through peekChunk")
 					continue
 				}
-				if readsBuffer(call) {
-					c.Discharge("fmt.chunks", key, in.Pos(), "dequeued chunk's buffer is read / handed to an emitter")
-				} else {
-					c.Report("fmt.chunks", key, in.Pos(), "a chunk is taken from the expression queue and never emitted: part of the expression disappears from the formatted output")
+				if call.Referrers() == nil || len(*call.Referrers()) == 0 {
+					c.Report("fmt.chunks", key, in.Pos(), "a chunk is taken from the expression queue and its value discarded: part of the expression disappears from the formatted output")
+					continue
 				}
-			}
-		}
-	}
-	// combineInfixChunk: every peeked chunk that is skipped was copied: each peekChunk result has its buffer read
-	peek := prog.SSAFunc("formatter", "ChunkBuffer.peekChunk")
-	if cic := prog.SSAFunc("formatter", "ChunkBuffer.combineInfixChunk"); cic != nil && peek != nil {
-		for _, b := range cic.Blocks {
-			for _, in := range b.Instrs {
-				if call, ok := in.(*ssa.Call); ok && call.Common().StaticCallee() == peek {
-					// all peeks flow into one phi usually: look through phis
-					ok := false
-					for _, u := range valueUsesThroughPhi(call) {
-						if fa, isFA := u.(*ssa.FieldAddr); isFA && core.FieldOf(fa) != nil && core.FieldOf(fa).Name() == "buffer" {
-							ok = true
-						}
-					}
-					if ok {
-						c.Discharge("fmt.chunks", "combineInfixChunk|peekChunk", in.Pos(), "peeked chunk's buffer is copied")
-					} else {
-						c.Report("fmt.chunks", "combineInfixChunk|peekChunk", in.Pos(), "a peeked chunk that combineInfixChunk later skips is not copied into the combined text")
-					}
+				if ok, why := conserved(fn, call, b, idx); ok {
+					c.Discharge("fmt.chunks", key, in.Pos(), "on every path to the next dequeue / return the chunk's text is written, the chunk is handed to an emitter, or it was compared equal to the constant written in its place")
+				} else {
+					c.Report("fmt.chunks", key, in.Pos(), "a chunk is taken from the expression queue and there is a path to "+why+" on which its text is neither written nor handed to an emitter: part of the expression disappears from the formatted output")
 				}
 			}
 		}
@@ -124,7 +266,7 @@ func checkChunks(c *core.Ctx) {
 	if !found {
 		c.Report("fmt.chunks", "ChunkBuffer.String|write-buffer", str.Pos(), "(*ChunkBuffer).String no longer writes the chunks' buffers")
 	}
-	c.Floor("fmt.chunks", 5)
+	c.Floor("fmt.chunks", 6)
 }
 
 func valueUsesThroughPhi(v ssa.Value) []ssa.Instruction {
